@@ -12,11 +12,11 @@ cmake -G Ninja -B _build -DENABLE_TESTS=ON >/dev/null 2>&1
 cmake --build _build >/dev/null 2>&1 || { echo "CONFIRM: build failed with patch"; git checkout -q -- src include; exit 1; }
 T=$(./_build/testdriver 2>&1 | grep -E "^ *tests" | awk '{print $2,$3,$4,$5}')
 echo "CONFIRM: tests with patch: $T"
-( cd "$M" && timeout 300 bash ./build_and_run.sh >/tmp/confirm_seed.$$.with 2>&1 ); RW=$?
+( cd "$M" && timeout 300 bash "$M/build_and_run.sh" >/tmp/confirm_seed.$$.with 2>&1 ); RW=$?
 echo "CONFIRM: demo with patch rc=$RW: $(tail -1 /tmp/confirm_seed.$$.with)"
 git checkout -q -- src include
 cmake --build _build >/dev/null 2>&1
-( cd "$M" && timeout 300 bash ./build_and_run.sh >/tmp/confirm_seed.$$.without 2>&1 ); RO=$?
+( cd "$M" && timeout 300 bash "$M/build_and_run.sh" >/tmp/confirm_seed.$$.without 2>&1 ); RO=$?
 echo "CONFIRM: demo without patch rc=$RO: $(tail -1 /tmp/confirm_seed.$$.without)"
 rm -f /tmp/confirm_seed.$$.*
 if [ $RW -ne 0 ] && [ $RO -eq 0 ]; then echo "CONFIRM: OK"; exit 0; fi
